@@ -1746,6 +1746,36 @@ pub(crate) mod verif_hooks {
     pub(crate) fn tool_choice_allows(value: &Value, name: &str) -> bool {
         ToolChoiceEnforcement::from_value(value).allows_function(name)
     }
+
+    /// The real `compile_context_bundle_for_run` for a given thread / triggering message:
+    /// (selection decision as the JSON payload of `continuity_context_selection_decided`,
+    /// bundle artifact id, from_seq, from_message_id).  Nothing is appended to the thread.
+    pub(crate) fn compile_context_for_run(
+        continuities: &ContinuityStore,
+        event_log: &EventLog,
+        snapshot_dir: &Path,
+        run: &ContinuityRunLink,
+        run_session_id: &str,
+    ) -> Result<(Value, String, u64, Option<String>), String> {
+        let outcome =
+            compile_context_bundle_for_run(continuities, event_log, snapshot_dir, run, run_session_id)?;
+        let ContextCompileOutcomeForRun { decision, compiled } = outcome;
+        let decision = serde_json::json!({
+            "compiler_id": decision.compiler_id,
+            "compiler_strategy": decision.compiler_strategy,
+            "limits": decision.limits,
+            "compaction_checkpoint": decision.compaction_checkpoint,
+            "compaction_checkpoints": decision.compaction_checkpoints,
+            "resets": decision.resets,
+            "reason": decision.reason,
+        });
+        Ok((
+            decision,
+            compiled.bundle_artifact_id,
+            compiled.from_seq,
+            compiled.from_message_id,
+        ))
+    }
 }
 
 #[cfg(test)]
